@@ -5,6 +5,10 @@
 //!                                 -> accepted=0/1 [out=<hex>] valid=0/1     (compared with the Lean back-end models)
 //!   trail <syn> <kind> <hex> <hexchar>   label/variable followed by '.'+non-ASCII non-name character
 //!                                 -> accepted=0/1 (the models say 0: reader left inside a character)
+//!   rel <syn> <how> <kind> <hexbase> <hexref>   a reference resolved against a base: how = cfg (configured base) |
+//!                                 doc (@base / xml:base / "@base" in the document) | sparql (BASE); kind = iri | dt | about | resource |
+//!                                 datatype | id | type; no Lean model (oxiri / iref resolution): the oracle is the toolkit's validators
+//!                                 -> outcome=ok|err items=<n> [out=<hex>]
 //!   base <hex>                    configured base IRI: Iri::new, then TurtleParser/TriGParser/RdfXmlParser::parse
 //!                                 -> new=0/1 parse=ok|panic
 //!   glue <t|q|g> <script> <k|->  rio/src/parser.rs with a scripted back-end parser and a callback failing on item k
@@ -84,60 +88,127 @@ pub fn json_string(w: &str) -> String {
 
 const RDFNS: &str = "http://www.w3.org/1999/02/22-rdf-syntax-ns#";
 
-/// (document, position of the term in the first statement, expected raw kind)
-pub fn tok_doc(syn: &str, kind: &str, w: &str) -> Option<(String, usize)> {
+/// where a token sits in the first statement: top-level position, or constituent of the quoted
+/// triple standing at that position
+#[derive(Clone, Copy, Debug, PartialEq)]
+pub enum Pos {
+    Top(usize),
+    In(usize, usize),
+}
+
+fn xml_doc(attrs: &str, inner: &str) -> String {
+    format!("<rdf:RDF xmlns:rdf=\"{}\"><rdf:Description {}>{}</rdf:Description></rdf:RDF>", RDFNS, attrs, inner)
+}
+
+/// the kind of recogniser behind a token kind (`iri_p`, `iri_g`, `iri_q` ... all are `iri`)
+pub fn base_kind(kind: &str) -> &str {
+    match kind {
+        "iri_p" | "iri_o" | "iri_g" | "iri_q" | "iri_qo" | "resource" | "type" | "graph" | "vocab" | "about_each" => "iri",
+        "bnode_g" | "bnode_q" | "bnode_qo" => "bnode",
+        "lang_q" | "dir_lang" => "lang",
+        "dt_q" | "datatype" | "dtype" => "dt",
+        "var_p" | "var_o" | "var_g" | "var_q" => "var",
+        "pname_p" | "pname_o" | "pname_g" | "pname_d" | "pname_q" => "pname",
+        k => k,
+    }
+}
+
+/// (document, position of the term in the first statement)
+pub fn tok_doc(syn: &str, kind: &str, w: &str) -> Option<(String, Pos)> {
+    use Pos::*;
     let fam = matches!(syn, "nt" | "nq" | "ttl" | "trig" | "gnq" | "gtrig");
     let turtle_like = matches!(syn, "ttl" | "trig" | "gtrig");
+    let quads = matches!(syn, "nq" | "gnq");
+    let graphs = matches!(syn, "trig" | "gtrig");
+    let generalized = matches!(syn, "gnq" | "gtrig");
+    let jsonld = run::family(syn) == "jsonld";
+    let iw = iriref_src(w);
     Some(match (kind, syn) {
-        ("bnode", _) if fam => (format!("_:{} <x:p> <x:o> .\n", w), 0),
-        ("bnode_o", _) if fam => (format!("<x:s> <x:p> _:{} .\n", w), 2),
-        ("bnode", "jsonld") => (format!("{{\"@id\":{},\"http://x/p\":\"o\"}}", json_string(&format!("_:{}", w))), 0),
-        ("nodeid", "xml") => (
-            format!(
-                "<rdf:RDF xmlns:rdf=\"{}\"><rdf:Description rdf:nodeID=\"{}\"><p xmlns=\"x:\">o</p></rdf:Description></rdf:RDF>",
-                RDFNS,
-                xml_attr(w)
-            ),
-            0,
-        ),
-        ("lang", _) if fam => (format!("<x:s> <x:p> \"a\"@{} .\n", w), 2),
-        ("lang", "xml") => (
-            format!(
-                "<rdf:RDF xmlns:rdf=\"{}\"><rdf:Description rdf:about=\"x:s\" xml:lang=\"{}\"><p xmlns=\"x:\">o</p></rdf:Description></rdf:RDF>",
-                RDFNS,
-                xml_attr(w)
-            ),
-            2,
-        ),
-        ("lang", "jsonld") => (
+        ("bnode", _) if fam => (format!("_:{} <x:p> <x:o> .\n", w), Top(0)),
+        ("bnode_o", _) if fam => (format!("<x:s> <x:p> _:{} .\n", w), Top(2)),
+        ("bnode_g", _) if quads => (format!("<x:s> <x:p> <x:o> _:{} .\n", w), Top(3)),
+        ("bnode_g", _) if graphs => (format!("_:{} {{ <x:s> <x:p> <x:o> }}\n", w), Top(3)),
+        ("bnode_q", _) if fam => (format!("<< _:{} <x:p> <x:o> >> <x:p> <x:o> .\n", w), In(0, 0)),
+        ("bnode_qo", _) if fam => (format!("<x:s> <x:p> << <x:a> <x:b> _:{} >> .\n", w), In(2, 2)),
+        ("bnode", _) if jsonld => (format!("{{\"@id\":{},\"http://x/p\":\"o\"}}", json_string(&format!("_:{}", w))), Top(0)),
+        ("nodeid", "xml") => (xml_doc(&format!("rdf:nodeID=\"{}\"", xml_attr(w)), "<p xmlns=\"x:\">o</p>"), Top(0)),
+        ("nodeid_o", "xml") => (xml_doc("rdf:about=\"x:s\"", &format!("<p xmlns=\"x:\" rdf:nodeID=\"{}\"/>", xml_attr(w))), Top(2)),
+        ("lang", _) if fam => (format!("<x:s> <x:p> \"a\"@{} .\n", w), Top(2)),
+        ("lang_q", _) if fam => (format!("<x:s> <x:p> << <x:a> <x:b> \"a\"@{} >> .\n", w), In(2, 2)),
+        ("lang", "xml") => (xml_doc(&format!("rdf:about=\"x:s\" xml:lang=\"{}\"", xml_attr(w)), "<p xmlns=\"x:\">o</p>"), Top(2)),
+        ("lang_p", "xml") => (xml_doc("rdf:about=\"x:s\"", &format!("<p xmlns=\"x:\" xml:lang=\"{}\">o</p>", xml_attr(w))), Top(2)),
+        ("lang", _) if jsonld => (
             format!("{{\"@id\":\"x:s\",\"http://x/p\":{{\"@value\":\"a\",\"@language\":{}}}}}", json_string(w)),
-            2,
+            Top(2),
         ),
-        ("var", "gnq") | ("var", "gtrig") => (format!("?{} <x:p> <x:o> .\n", w), 0),
-        ("iri", _) if fam => (format!("<{}> <x:p> <x:o> .\n", iriref_src(w)), 0),
-        ("dt", _) if fam => (format!("<x:s> <x:p> \"a\"^^<{}> .\n", iriref_src(w)), 2),
-        ("iri", "xml") => (
+        // a base direction beside the tag: dropped by default, `https://www.w3.org/ns/i18n#<tag>_ltr` datatype under
+        // rdf_direction=i18n-datatype, a compound literal (blank node) under compound-literal
+        ("dir_lang", _) if jsonld => (
             format!(
-                "<rdf:RDF xmlns:rdf=\"{}\"><rdf:Description rdf:about=\"{}\"><p xmlns=\"x:\">o</p></rdf:Description></rdf:RDF>",
-                RDFNS,
-                xml_attr(w)
+                "{{\"@id\":\"x:s\",\"http://x/p\":{{\"@value\":\"a\",\"@language\":{},\"@direction\":\"ltr\"}}}}",
+                json_string(w)
             ),
-            0,
+            Top(2),
         ),
-        ("iri", "jsonld") => (format!("{{\"@id\":{},\"http://x/p\":\"o\"}}", json_string(w)), 0),
+        ("ctx_lang", _) if jsonld => (
+            format!("{{\"@context\":{{\"@language\":{}}},\"@id\":\"x:s\",\"http://x/p\":\"a\"}}", json_string(w)),
+            Top(2),
+        ),
+        ("var", _) if generalized => (format!("?{} <x:p> <x:o> .\n", w), Top(0)),
+        ("var_p", _) if generalized => (format!("<x:s> ?{} <x:o> .\n", w), Top(1)),
+        ("var_o", _) if generalized => (format!("<x:s> <x:p> ?{} .\n", w), Top(2)),
+        ("var_g", "gnq") => (format!("<x:s> <x:p> <x:o> ?{} .\n", w), Top(3)),
+        ("var_g", "gtrig") => (format!("?{} {{ <x:s> <x:p> <x:o> }}\n", w), Top(3)),
+        ("var_q", _) if generalized => (format!("<< <x:a> ?{} <x:o> >> <x:p> <x:o> .\n", w), In(0, 1)),
+        ("iri", _) if fam => (format!("<{}> <x:p> <x:o> .\n", iw), Top(0)),
+        ("iri_p", _) if fam => (format!("<x:s> <{}> <x:o> .\n", iw), Top(1)),
+        ("iri_o", _) if fam => (format!("<x:s> <x:p> <{}> .\n", iw), Top(2)),
+        ("iri_g", _) if quads => (format!("<x:s> <x:p> <x:o> <{}> .\n", iw), Top(3)),
+        ("iri_g", _) if graphs => (format!("<{}> {{ <x:s> <x:p> <x:o> }}\n", iw), Top(3)),
+        ("iri_q", _) if fam => (format!("<< <{}> <x:p> <x:o> >> <x:p> <x:o> .\n", iw), In(0, 0)),
+        ("iri_qo", _) if fam => (format!("<x:s> <x:p> << <x:a> <x:b> <{}> >> .\n", iw), In(2, 2)),
+        ("dt", _) if fam => (format!("<x:s> <x:p> \"a\"^^<{}> .\n", iw), Top(2)),
+        ("dt_q", _) if fam => (format!("<x:s> <x:p> << <x:a> <x:b> \"a\"^^<{}> >> .\n", iw), In(2, 2)),
+        ("iri", "xml") => (xml_doc(&format!("rdf:about=\"{}\"", xml_attr(w)), "<p xmlns=\"x:\">o</p>"), Top(0)),
+        ("resource", "xml") => (xml_doc("rdf:about=\"x:s\"", &format!("<p xmlns=\"x:\" rdf:resource=\"{}\"/>", xml_attr(w))), Top(2)),
+        ("datatype", "xml") => (xml_doc("rdf:about=\"x:s\"", &format!("<p xmlns=\"x:\" rdf:datatype=\"{}\">a</p>", xml_attr(w))), Top(2)),
+        ("type", "xml") => (
+            // a typed node element: namespace name ++ local name `T` is the object of rdf:type
+            format!("<rdf:RDF xmlns:rdf=\"{}\"><e:T xmlns:e=\"{}\" rdf:about=\"x:s\"/></rdf:RDF>", RDFNS, xml_attr(w)),
+            Top(2),
+        ),
+        ("iri", _) if jsonld => (format!("{{\"@id\":{},\"http://x/p\":\"o\"}}", json_string(w)), Top(0)),
+        ("iri_o", _) if jsonld => (format!("{{\"@id\":\"x:s\",\"http://x/p\":{{\"@id\":{}}}}}", json_string(w)), Top(2)),
+        ("type", _) if jsonld => (format!("{{\"@id\":\"x:s\",\"@type\":{}}}", json_string(w)), Top(2)),
+        ("dtype", _) if jsonld => (
+            format!("{{\"@id\":\"x:s\",\"http://x/p\":{{\"@value\":\"a\",\"@type\":{}}}}}", json_string(w)),
+            Top(2),
+        ),
+        ("graph", _) if jsonld => (
+            format!("{{\"@id\":{},\"@graph\":[{{\"@id\":\"x:s\",\"http://x/p\":\"o\"}}]}}", json_string(w)),
+            Top(3),
+        ),
+        // `@vocab` ++ term `p` becomes the predicate
+        ("vocab", _) if jsonld => (
+            format!("{{\"@context\":{{\"@vocab\":{}}},\"@id\":\"x:s\",\"p\":\"o\"}}", json_string(w)),
+            Top(1),
+        ),
+        // a term definition: the predicate is `w` itself
+        ("term", _) if jsonld => (
+            format!("{{\"@context\":{{\"t\":{{\"@id\":{}}}}},\"@id\":\"x:s\",\"t\":\"o\"}}", json_string(w)),
+            Top(1),
+        ),
         // prefixed name: emitted IRI = "x:" ++ w
-        ("pname", _) if turtle_like => (format!("@prefix p: <x:> .\np:{} <x:p> <x:o> .\n", pn_local_src(w)), 0),
+        ("pname", _) if turtle_like => (format!("@prefix p: <x:> .\np:{} <x:p> <x:o> .\n", pn_local_src(w)), Top(0)),
+        ("pname_p", _) if turtle_like => (format!("@prefix p: <x:> .\n<x:s> p:{} <x:o> .\n", pn_local_src(w)), Top(1)),
+        ("pname_o", _) if turtle_like => (format!("@prefix p: <x:> .\n<x:s> <x:p> p:{} .\n", pn_local_src(w)), Top(2)),
+        ("pname_g", _) if graphs => (format!("@prefix p: <x:> .\np:{} {{ <x:s> <x:p> <x:o> }}\n", pn_local_src(w)), Top(3)),
+        ("pname_d", _) if turtle_like => (format!("@prefix p: <x:> .\n<x:s> <x:p> \"a\"^^p:{} .\n", pn_local_src(w)), Top(2)),
+        ("pname_q", _) if turtle_like => (format!("@prefix p: <x:> .\n<< p:{} <x:p> <x:o> >> <x:p> <x:o> .\n", pn_local_src(w)), In(0, 0)),
         // relative prefix + local name as datatype (generalized TriG only)
-        ("pname_dt", "gtrig") => (format!("@prefix p: <{}> .\n<x:s> <x:p> \"a\"^^p:d .\n", iriref_src(w)), 2),
+        ("pname_dt", "gtrig") => (format!("@prefix p: <{}> .\n<x:s> <x:p> \"a\"^^p:d .\n", iw), Top(2)),
         // XML namespace name ++ local name "p" becomes the predicate IRI
-        ("xmlns", "xml") => (
-            format!(
-                "<rdf:RDF xmlns:rdf=\"{}\"><rdf:Description rdf:about=\"x:s\"><e:p xmlns:e=\"{}\">o</e:p></rdf:Description></rdf:RDF>",
-                RDFNS,
-                xml_attr(w)
-            ),
-            1,
-        ),
+        ("xmlns", "xml") => (xml_doc("rdf:about=\"x:s\"", &format!("<e:p xmlns:e=\"{}\">o</e:p>", xml_attr(w))), Top(1)),
         _ => return None,
     })
 }
@@ -148,12 +219,13 @@ fn lower(w: &str) -> String {
 
 /// what the back-end is expected to hand over for token `w` (used to decide `accepted`)
 fn expected_out(syn: &str, kind: &str, w: &str) -> String {
-    match kind {
-        "lang" => lower(w),
-        "pname" => format!("x:{}", w),
-        "pname_dt" => format!("{}d", w),
-        "xmlns" => format!("{}p", w),
-        "bnode" | "bnode_o" if matches!(syn, "ttl" | "trig" | "gtrig") => {
+    match (base_kind(kind), kind) {
+        ("lang", _) | (_, "lang_p") | (_, "ctx_lang") => lower(w),
+        ("pname", _) => format!("x:{}", w),
+        (_, "pname_dt") => format!("{}d", w),
+        (_, "xmlns") | (_, "vocab") => format!("{}p", w),
+        (_, "type") if syn == "xml" => format!("{}T", w),
+        ("bnode", _) | (_, "bnode_o") if matches!(syn, "ttl" | "trig" | "gtrig") => {
             // rio_turtle's BlankNodeIdGenerator::disambiguate
             let bs = w.as_bytes();
             if bs.len() >= 12 && &bs[..4] == b"riog" && bs[4..12].iter().all(u8::is_ascii_digit) && bs[12..].iter().all(|x| *x == b'd') {
@@ -167,23 +239,34 @@ fn expected_out(syn: &str, kind: &str, w: &str) -> String {
 }
 
 fn raw_text(r: &R, kind: &str) -> Option<String> {
-    match (r, kind) {
+    match (r, base_kind(kind)) {
         (R::I(s), "iri" | "pname" | "xmlns") => Some(s.clone()),
-        (R::B(s), "bnode" | "bnode_o" | "nodeid") => Some(s.clone()),
+        (R::B(s), "bnode" | "bnode_o" | "nodeid" | "nodeid_o") => Some(s.clone()),
         (R::V(s), "var") => Some(s.clone()),
-        (R::L(_, _, Some(l)), "lang") => Some(l.clone()),
+        (R::L(_, _, Some(l)), "lang" | "lang_p") => Some(l.clone()),
         (R::L(_, Some(d), _), "dt" | "pname_dt") => Some(d.clone()),
+        (R::L(_, Some(d), _), "pname") if kind == "pname_d" => Some(d.clone()),
         _ => None,
+    }
+}
+
+fn raw_at(v: &[R], pos: Pos) -> Option<&R> {
+    match pos {
+        Pos::Top(i) => v.get(i),
+        Pos::In(i, j) => match v.get(i) {
+            Some(R::T(spo)) => spo.get(j),
+            _ => None,
+        },
     }
 }
 
 fn validator_ok(syn: &str, kind: &str, s: &str) -> bool {
     use sophia_api::term::{BnodeId, LanguageTag, VarName};
-    match kind {
-        "bnode" | "bnode_o" | "nodeid" => BnodeId::new(s).is_ok(),
-        "lang" => LanguageTag::new(s).is_ok(),
-        "var" => VarName::new(s).is_ok(),
-        "dt" | "pname_dt" => sophia_iri::Iri::new(s).is_ok(),
+    match (base_kind(kind), kind) {
+        ("bnode" | "bnode_o" | "nodeid" | "nodeid_o", _) => BnodeId::new(s).is_ok(),
+        ("lang" | "lang_p" | "ctx_lang", _) => LanguageTag::new(s).is_ok(),
+        ("var", _) => VarName::new(s).is_ok(),
+        ("dt" | "pname_dt", _) | (_, "pname_d") => sophia_iri::Iri::new(s).is_ok(),
         _ => {
             if run::is_strict(syn) {
                 sophia_iri::Iri::new(s).is_ok()
@@ -206,6 +289,10 @@ fn fail_fields(obs: &Obs) -> String {
         };
         o += &format!(" {}={}", key, bb);
     }
+    if !obs.bad.is_empty() {
+        // information for the known-finding predicates: the back-end strings the validators reject
+        o += &format!(" bad={}", obs.bad.join(","));
+    }
     o
 }
 
@@ -223,7 +310,7 @@ fn exec_tok(syn: &str, kind: &str, w: &str) -> String {
     let mut out: Option<String> = None;
     if accepted {
         if let Some(first) = obs.raw.first() {
-            match first.get(pos).and_then(|r| raw_text(r, kind)) {
+            match raw_at(first, pos).and_then(|r| raw_text(r, kind)) {
                 Some(s) => {
                     if s != want {
                         accepted = false;
@@ -234,17 +321,28 @@ fn exec_tok(syn: &str, kind: &str, w: &str) -> String {
             }
         } else if let Some(first) = obs.sop.first() {
             // json-ld: no raw view; the sophia view tells the kind, and the text unless the accessor panicked
-            match first.get(pos) {
+            let top = match pos {
+                Pos::Top(i) => i,
+                Pos::In(i, _) => i,
+            };
+            let is_lang = matches!(kind, "lang" | "dir_lang" | "ctx_lang");
+            match first.get(top) {
                 Some(sv) => {
                     let k = match kind {
                         "bnode" => 'b',
-                        "iri" => 'i',
+                        "iri" | "iri_o" | "type" | "graph" | "vocab" | "term" => 'i',
                         _ => 'l',
                     };
                     if sv.kind != k {
                         accepted = false;
                     } else {
-                        let t = if kind == "lang" { sv.lang.clone() } else { sv.text.clone() };
+                        let t = if is_lang {
+                            sv.lang.clone()
+                        } else if kind == "dtype" {
+                            sv.dt.clone()
+                        } else {
+                            sv.text.clone()
+                        };
                         match t {
                             Some(t) if kind == "bnode" => {
                                 // json-ld relabels blank nodes: report whether the label has the generator's shape
@@ -253,15 +351,15 @@ fn exec_tok(syn: &str, kind: &str, w: &str) -> String {
                                 return format!("accepted=1 gen={} label={} valid={}{}", b(g), hex(&t), b(ok), fail_fields(&obs));
                             }
                             Some(t) => {
-                                if kind == "lang" && t.to_ascii_lowercase() != w.to_ascii_lowercase() {
+                                if is_lang && t.to_ascii_lowercase() != w.to_ascii_lowercase() {
                                     accepted = false;
-                                } else if kind != "lang" && t != want {
+                                } else if !is_lang && t != want {
                                     accepted = false;
                                 }
                                 out = Some(t);
                             }
                             None => {
-                                if kind == "lang" && !sv.panicked {
+                                if is_lang && !sv.panicked {
                                     accepted = false; // plain literal: the tag was dropped
                                 }
                             }
@@ -306,7 +404,7 @@ fn exec_trail(syn: &str, kind: &str, w: &str, c: &str) -> String {
                 .raw
                 .first()
                 .and_then(|t| t.get(pos))
-                .and_then(|r| raw_text(r, kind))
+                .and_then(|r| raw_text(r, if kind == "bnode_o" { "bnode" } else { kind }))
                 .map(|s| hex(&s))
                 .unwrap_or("none".into());
             format!("accepted={} emitted={}{}", b(acc), emitted, fail_fields(&obs))
@@ -323,10 +421,11 @@ fn exec_base(w: &str) -> String {
     let mut worst = "ok";
     let mut fails = String::new();
     for syn in ["ttl", "trig", "gtrig", "xml"] {
+        // relative references of every shape (RFC 3986 5.4), in every position that is resolved
         let doc: &[u8] = if syn == "xml" {
-            b"<rdf:RDF xmlns:rdf=\"http://www.w3.org/1999/02/22-rdf-syntax-ns#\"><rdf:Description rdf:about=\"a\"><p xmlns=\"x:\">o</p></rdf:Description></rdf:RDF>"
+            b"<rdf:RDF xmlns:rdf=\"http://www.w3.org/1999/02/22-rdf-syntax-ns#\"><rdf:Description rdf:about=\"a\"><p xmlns=\"x:\">o</p><q xmlns=\"x:\" rdf:resource=\"#o\"/><r xmlns=\"x:\" rdf:datatype=\"../dt\">1</r><s xmlns=\"x:\" rdf:resource=\"?q\"/><t xmlns=\"x:\" rdf:resource=\"//h/p\"/><u xmlns=\"x:\" rdf:resource=\"\"/></rdf:Description><rdf:Description rdf:ID=\"i\"><p xmlns=\"x:\" rdf:ID=\"j\">o</p></rdf:Description></rdf:RDF>"
         } else {
-            b"<a> <x:p> <#o> .\n"
+            b"@prefix n: <ns/> .\n<a> <x:p> <#o> , <?q> , <../../b> , <//h/p> , </r> , <> , <./c/../d> , \"1\"^^<dt> .\nn:l <x:p> <g:h> .\n"
         };
         match catch(AssertUnwindSafe(|| run::run(syn, doc, Some(w), false))) {
             Ok(obs) => fails += &fail_fields(&obs),
@@ -339,47 +438,213 @@ fn exec_base(w: &str) -> String {
     format!("new=1 parse={}{}", worst, fails)
 }
 
+fn panic_short(m: &str) -> String {
+    let short: String = m.chars().filter(|c| c.is_ascii_alphanumeric() || *c == '_').take(40).collect();
+    if short.is_empty() { "x".into() } else { short }
+}
+
 fn exec_doc(syn: &str, data: &[u8], base: Option<&str>) -> String {
-    match catch(AssertUnwindSafe(|| run::run(syn, data, base, false))) {
-        Ok(obs) => format!(
-            "outcome={} items={}{}",
-            if obs.errors == 0 { "ok" } else { "err" },
-            obs.items,
-            fail_fields(&obs)
-        ),
-        Err(m) => {
-            let short: String = m.chars().filter(|c| c.is_ascii_alphanumeric() || *c == '_').take(40).collect();
-            format!("outcome=panic FAIL.parser_panic={}", if short.is_empty() { "x".into() } else { short })
+    let whole = catch(AssertUnwindSafe(|| run::run(syn, data, base, false)));
+    // the same bytes through a small BufReader: `fill_buf` splits tokens and UTF-8 sequences
+    // (sizes 1..=7, a function of the input so that a replay is deterministic)
+    let chunk = 1 + data.iter().fold(data.len(), |a, x| a.wrapping_mul(31).wrapping_add(*x as usize)) % 7;
+    let parts = catch(AssertUnwindSafe(|| run::run_chunked(syn, data, base, false, Some(chunk))));
+    match (whole, parts) {
+        (Ok(mut obs), Ok(p)) => {
+            let same = obs.items == p.items && obs.errors == p.errors;
+            for f in p.fails {
+                if !obs.fails.contains(&f) {
+                    obs.fails.push(f);
+                }
+            }
+            for x in p.bad {
+                if !obs.bad.contains(&x) && obs.bad.len() < 6 {
+                    obs.bad.push(x);
+                }
+            }
+            format!(
+                "outcome={} items={} chunk={} chunk_same={} swept={}{}",
+                if obs.errors == 0 { "ok" } else { "err" },
+                obs.items,
+                chunk,
+                b(same),
+                obs.extra_swept,
+                fail_fields(&obs)
+            )
         }
+        (Err(m), _) => format!("outcome=panic FAIL.parser_panic={}", panic_short(&m)),
+        (Ok(_), Err(m)) => format!("outcome=panic chunk={} FAIL.parser_panic={}", chunk, panic_short(&m)),
     }
 }
 
+/// a reference resolved against a base.  No model of the resolvers (oxiri for the Rio family, iref for
+/// JSON-LD): whatever comes out must satisfy the toolkit's validators, whatever goes in must not panic.
+fn exec_rel(syn: &str, how: &str, kind: &str, base: &str, r: &str) -> String {
+    let fam = run::family(syn);
+    let ttl_like = matches!(syn, "ttl" | "trig" | "gtrig");
+    let term = |r: &str| -> Option<(String, usize)> {
+        Some(match (fam, kind) {
+            (_, "iri") if ttl_like => (format!("<{}> <x:p> <x:o> .\n", iriref_src(r)), 0),
+            (_, "iri_o") if ttl_like => (format!("<x:s> <x:p> <{}> .\n", iriref_src(r)), 2),
+            (_, "dt") if ttl_like => (format!("<x:s> <x:p> \"a\"^^<{}> .\n", iriref_src(r)), 2),
+            (_, "prefix") if ttl_like => (format!("@prefix p: <{}> .\np:a <x:p> <x:o> .\n", iriref_src(r)), 0),
+            (_, "iri_g") if matches!(syn, "trig" | "gtrig") => (format!("<{}> {{ <x:s> <x:p> <x:o> }}\n", iriref_src(r)), 3),
+            _ => return None,
+        })
+    };
+    let (doc, cfg_base): (String, Option<&str>) = match (fam, how) {
+        (_, "cfg") if ttl_like => match term(r) {
+            Some((d, _)) => (d, Some(base)),
+            None => return "bad-op".into(),
+        },
+        (_, "doc") if ttl_like => match term(r) {
+            Some((d, _)) => (format!("@base <{}> .\n{}", iriref_src(base), d), None),
+            None => return "bad-op".into(),
+        },
+        (_, "sparql") if ttl_like => match term(r) {
+            Some((d, _)) => (format!("BASE <{}>\n{}", iriref_src(base), d), None),
+            None => return "bad-op".into(),
+        },
+        // a second directive is resolved against the first
+        (_, "twice") if ttl_like => match term(r) {
+            Some((d, _)) => (format!("@base <{}> .\n@base <{}> .\n{}", iriref_src(base), iriref_src(r), d), None),
+            None => return "bad-op".into(),
+        },
+        ("xml", "cfg") | ("xml", "doc") => {
+            let rb = if how == "doc" { format!(" xml:base=\"{}\"", xml_attr(base)) } else { String::new() };
+            let a = xml_attr(r);
+            let body = match kind {
+                "about" => format!("<rdf:Description rdf:about=\"{}\"><p xmlns=\"x:\">o</p></rdf:Description>", a),
+                "resource" => format!("<rdf:Description rdf:about=\"x:s\"><p xmlns=\"x:\" rdf:resource=\"{}\"/></rdf:Description>", a),
+                "datatype" => format!("<rdf:Description rdf:about=\"x:s\"><p xmlns=\"x:\" rdf:datatype=\"{}\">a</p></rdf:Description>", a),
+                "id" => format!("<rdf:Description rdf:ID=\"{}\"><p xmlns=\"x:\">o</p></rdf:Description>", a),
+                // reification: rdf:ID on a property element
+                "id_p" => format!("<rdf:Description rdf:about=\"x:s\"><p xmlns=\"x:\" rdf:ID=\"{}\">o</p></rdf:Description>", a),
+                // xml:base on an inner element, itself relative to the outer one
+                "inner" => format!("<rdf:Description xml:base=\"{}\" rdf:about=\"\"><p xmlns=\"x:\" rdf:resource=\"#f\"/></rdf:Description>", a),
+                _ => return "bad-op".into(),
+            };
+            (format!("<rdf:RDF xmlns:rdf=\"{}\"{}>{}</rdf:RDF>", RDFNS, rb, body), if how == "cfg" { Some(base) } else { None })
+        }
+        ("jsonld", "doc") => {
+            let j = json_string(r);
+            let body = match kind {
+                "iri" => format!("\"@id\":{},\"http://x/p\":\"o\"", j),
+                "iri_o" => format!("\"@id\":\"x:s\",\"http://x/p\":{{\"@id\":{}}}", j),
+                "type" => format!("\"@id\":\"x:s\",\"@type\":{}", j),
+                "graph" => format!("\"@id\":{},\"@graph\":[{{\"@id\":\"x:s\",\"http://x/p\":\"o\"}}]", j),
+                // a second @base, relative to the first
+                "inner" => format!("\"@id\":\"x:s\",\"http://x/p\":{{\"@context\":{{\"@base\":{}}},\"@id\":\"a\"}}", j),
+                _ => return "bad-op".into(),
+            };
+            (format!("{{\"@context\":{{\"@base\":{}}},{}}}", json_string(base), body), None)
+        }
+        _ => return "bad-op".into(),
+    };
+    if cfg_base.is_some() && sophia_iri::Iri::new(base).is_err() {
+        return "skip=1".into();
+    }
+    match catch(AssertUnwindSafe(|| run::run(syn, doc.as_bytes(), cfg_base, true))) {
+        Ok(obs) => {
+            let first = obs
+                .raw
+                .first()
+                .map(|v| v.iter().filter_map(|r| if let R::I(s) = r { Some(hex(s)) } else { None }).collect::<Vec<_>>().join(","))
+                .or_else(|| obs.sop.first().map(|v| v.iter().filter_map(|s| if s.kind == 'i' { s.text.as_deref().map(hex) } else { None }).collect::<Vec<_>>().join(",")))
+                .unwrap_or_default();
+            format!(
+                "outcome={} items={} iris={}{}",
+                if obs.errors == 0 { "ok" } else { "err" },
+                obs.items,
+                if first.is_empty() { "none".into() } else { first },
+                fail_fields(&obs)
+            )
+        }
+        Err(m) => format!("outcome=panic FAIL.parser_panic={}", panic_short(&m)),
+    }
+}
+
+static CHILD_NO: std::sync::atomic::AtomicUsize = std::sync::atomic::AtomicUsize::new(0);
+
+/// wall-clock allowance of one nesting / long-token child; a child that needs longer is reported as
+/// inconclusive, not as a violation (the machine is shared)
+const CHILD_TIMEOUT_S: u64 = 1200;
+
 /// deep nesting runs in a child process (same binary, `child` sub-command) on a thread with an
 /// explicit 8 MiB stack (the main-thread default on Linux), so that a stack overflow of the parser
-/// kills the child only
+/// kills the child only.  Verdicts: the child's own reply; `FAIL.abort` when the child died of
+/// SIGABRT / SIGSEGV / SIGBUS / SIGILL (a stack overflow, an `abort()`), or exited with an error code;
+/// `outcome=inconclusive` (no FAIL) when it was killed from outside (SIGKILL / SIGTERM: the OOM killer, an
+/// operator), ran out of memory, could not be started, or exceeded the allowance.
 fn exec_deep(syn: &str, shape: &str, depth: &str) -> String {
+    use std::os::unix::process::ExitStatusExt;
     let exe = match std::env::current_exe() {
         Ok(e) => e,
-        Err(_) => return "outcome=noexe".into(),
+        Err(_) => return "outcome=inconclusive why=noexe".into(),
     };
-    let out = std::process::Command::new(exe)
+    let n = CHILD_NO.fetch_add(1, std::sync::atomic::Ordering::SeqCst);
+    let tmp = std::env::temp_dir();
+    let po = tmp.join(format!("vh-c08-{}-{}.out", std::process::id(), n));
+    let pe = tmp.join(format!("vh-c08-{}-{}.err", std::process::id(), n));
+    let (fo, fe) = match (std::fs::File::create(&po), std::fs::File::create(&pe)) {
+        (Ok(a), Ok(b)) => (a, b),
+        _ => return "outcome=inconclusive why=notmp".into(),
+    };
+    let child = std::process::Command::new(exe)
         .args(["child", syn, shape, depth])
+        .env("C08_CHILD_STDERR", "1")
         .stdin(std::process::Stdio::null())
-        .stderr(std::process::Stdio::null())
-        .output();
-    match out {
-        Err(_) => "outcome=nospawn".into(),
-        Ok(o) => {
-            use std::os::unix::process::ExitStatusExt;
-            if let Some(sig) = o.status.signal() {
-                format!("outcome=abort sig={} FAIL.abort={}.{}", sig, syn, shape)
-            } else if o.status.code() == Some(0) {
-                String::from_utf8_lossy(&o.stdout).trim().to_string()
-            } else {
-                format!("outcome=abort code={} FAIL.abort={}.{}", o.status.code().unwrap_or(-1), syn, shape)
+        .stdout(fo)
+        .stderr(fe)
+        .spawn();
+    let cleanup = |r: String| -> String {
+        let _ = std::fs::remove_file(&po);
+        let _ = std::fs::remove_file(&pe);
+        r
+    };
+    let mut child = match child {
+        Ok(c) => c,
+        Err(_) => return cleanup("outcome=inconclusive why=nospawn".into()),
+    };
+    let t0 = std::time::Instant::now();
+    let mut nap = 1u64;
+    let status = loop {
+        match child.try_wait() {
+            Ok(Some(st)) => break st,
+            Ok(None) => {
+                if t0.elapsed().as_secs() >= CHILD_TIMEOUT_S {
+                    let _ = child.kill();
+                    let _ = child.wait();
+                    return cleanup(format!("outcome=inconclusive why=timeout_{}s", CHILD_TIMEOUT_S));
+                }
+                std::thread::sleep(std::time::Duration::from_millis(nap));
+                nap = (nap * 2).min(50);
             }
+            Err(_) => return cleanup("outcome=inconclusive why=wait".into()),
         }
-    }
+    };
+    let read_tail = |p: &std::path::Path| -> String {
+        let v = std::fs::read(p).unwrap_or_default();
+        let from = v.len().saturating_sub(4000);
+        String::from_utf8_lossy(&v[from..]).to_string()
+    };
+    let err_tail = read_tail(&pe);
+    let out_tail = read_tail(&po);
+    let oom = err_tail.contains("memory allocation of") || err_tail.contains("out of memory");
+    let r = if let Some(sig) = status.signal() {
+        if oom || !matches!(sig, 4 | 6 | 7 | 11) {
+            format!("outcome=inconclusive why={}_sig{}", if oom { "oom" } else { "killed" }, sig)
+        } else {
+            format!("outcome=abort sig={} FAIL.abort={}.{}", sig, syn, shape)
+        }
+    } else if status.code() == Some(0) {
+        out_tail.trim().lines().last().unwrap_or("outcome=inconclusive why=noreply").to_string()
+    } else if oom {
+        "outcome=inconclusive why=oom".to_string()
+    } else {
+        format!("outcome=abort code={} FAIL.abort={}.{}", status.code().unwrap_or(-1), syn, shape)
+    };
+    cleanup(r)
 }
 
 fn child_main(args: &[String]) -> i32 {
@@ -418,11 +683,15 @@ pub fn exec(line: &str) -> String {
             Some(w) => exec_base(&w),
             None => "bad-hex".into(),
         },
-        ["doc", syn, h] if run::SYNTAXES.contains(syn) => match unhex_bytes(h) {
+        ["rel", syn, how, kind, hb, hr] => match (unhex(hb), unhex(hr)) {
+            (Some(bs), Some(r)) => exec_rel(syn, how, kind, &bs, &r),
+            _ => "bad-hex".into(),
+        },
+        ["doc", syn, h] if run::known_syntax(syn) => match unhex_bytes(h) {
             Some(d) => exec_doc(syn, &d, None),
             None => "bad-hex".into(),
         },
-        ["doc", syn, h, hb] if run::SYNTAXES.contains(syn) => match (unhex_bytes(h), unhex(hb)) {
+        ["doc", syn, h, hb] if run::known_syntax(syn) => match (unhex_bytes(h), unhex(hb)) {
             (Some(d), Some(bs)) if sophia_iri::Iri::new(bs.as_str()).is_ok() => exec_doc(syn, &d, Some(&bs)),
             (Some(_), Some(_)) => "skip=1".into(),
             _ => "bad-hex".into(),
